@@ -1260,6 +1260,19 @@ def check_estimator(case, rec):
         dict(tags, kind="standard_bins_layout"),
     )
 
+    # the same for a structured lat-lon grid: default bins follow the grid *points* on the sphere, whatever the mesh type
+    la_ax = np.unique(np.round(lat, 9))[:4]
+    lo_ax = np.unique(np.round(lon, 9))[:4]
+    if la_ax.size >= 2 and lo_ax.size >= 2:
+        gla, glo = np.meshgrid(la_ax, lo_ax, indexing="ij")
+        sb_u = lib(gs.standard_bins, np.array([gla.ravel(), glo.ravel()]), latlon=True, geo_scale=g, _what="standard_bins(unstructured grid points)", _tags=tags)
+        sb_s = lib(gs.standard_bins, (la_ax.copy(), lo_ax.copy()), latlon=True, geo_scale=g, mesh_type="structured", _what="standard_bins(structured)", _tags=tags)
+        rec.label("standard_bins_structured")
+        require(
+            sb_s.shape == sb_u.shape and bool(np.allclose(sb_s, sb_u, rtol=1e-12, atol=1e-14 * g)),
+            f"standard_bins(latlon=True, mesh_type='structured'): maximal edge {sb_s[-1]!r} ({sb_s.size - 1} bins), the same grid points given unstructured: {sb_u[-1]!r} ({sb_u.size - 1} bins)",
+            dict(tags, kind="standard_bins_structured"),
+        )
     if case["mode"] == "given":
         edges = np.array(case["edges"], dtype=float)
         kw = {}
